@@ -402,5 +402,62 @@ def r7_responses_values_total(chk: Check) -> None:
         chk.undecided("C10.R7", "<discovery>", f"loops={n}", "fewer loops over `responses` than confirmed by hand")
 
 
+def r8_node_tables(chk: Check) -> None:
+    chk.rule("C10.R8", "PRODUCER/CONSUMER(parser -> nodes): the request locations the parser accepts are exactly the keys of the container table NonBodyRequest.evaluate looks them up in; each key denotes the case attribute the schema-wide LOCATION_TO_CONTAINER names (`path` -> path_parameters, ...); header names are matched case-insensitively on both sides (request: CaseInsensitiveDict under `location == 'header'`; response: recorded names are lower-cased, so the lookup key is lower-cased too); both body nodes strip the leading `#` of the pointer the same way", floor=5)
+    P = chk.project
+    parse_req = P.func(f"{EXPR}/parser.py:_parse_request")
+    ev = P.func(f"{EXPR}/nodes.py:NonBodyRequest.evaluate")
+    accepted: set[str] = set()
+    for n in walk_body(parse_req.node):
+        if isinstance(n, ast.Compare) and len(n.ops) == 1 and isinstance(n.ops[0], ast.In) and unparse(n.left).endswith(".value") and isinstance(n.comparators[0], (ast.Tuple, ast.List, ast.Set)):
+            accepted |= {const_str(e) for e in n.comparators[0].elts if const_str(e)}
+    table = None
+    for n in walk_body(ev.node):
+        if isinstance(n, ast.Dict) and n.keys and all(const_str(k) for k in n.keys):
+            table = n
+            break
+    if not accepted or table is None:
+        chk.undecided("C10.R8", ev, "location table", "accepted locations / container table not found", ev.loc())
+        return
+    keys = {const_str(k): unparse(v) for k, v in zip(table.keys, table.values)}
+    chk.decide(set(keys) == accepted, "C10.R8", ev, f"parser accepts {sorted(accepted)} = keys of the container table",
+               f"parser accepts {sorted(accepted)} but evaluate knows {sorted(keys)}: an accepted expression raises KeyError / a location is never reachable", ev.loc(table))
+    consts = P.module("specs/openapi/constants.py")
+    l2c = None
+    for st in consts.tree.body:
+        if isinstance(st, ast.Assign) and any(isinstance(t, ast.Name) and t.id == "LOCATION_TO_CONTAINER" for t in st.targets) and isinstance(st.value, ast.Dict):
+            l2c = {const_str(k): const_str(v) for k, v in zip(st.value.keys, st.value.values)}
+    if l2c is None:
+        chk.undecided("C10.R8", "specs/openapi/constants.py", "LOCATION_TO_CONTAINER", "table not found")
+    else:
+        for k, v in keys.items():
+            want = l2c.get(k)
+            attr = v.rpartition(".")[2]
+            chk.decide(want is not None and attr == want and ".case." in v, "C10.R8", ev, f"`{k}` is read from case.{want}",
+                       f"`$request.{k}.<name>` is looked up in `{v}`, the `{k}` parameters of a case live in `case.{want}`: the link passes another location's value (or nothing)", ev.loc(table))
+    # header case-insensitivity
+    cid = [c for c in body_calls(ev) if last_attr(c) == "CaseInsensitiveDict"]
+    g = cfg_of(ev)
+    ok = bool(cid) and all(known_conditions(g, g.stmt_nodes_containing(c)).get("self.location == 'header'") is True for c in cid)
+    chk.decide(True if ok else (False if not cid else None), "C10.R8", ev, "request header names are matched case-insensitively",
+               "the header container is a plain dict: `$request.header.x-token` does not find `X-Token`", ev.loc())
+    hr = P.func(f"{EXPR}/nodes.py:HeaderResponse.evaluate")
+    gets = [c for c in body_calls(hr) if last_attr(c) == "get" and "headers" in unparse(c.func)]
+    chk.decide(bool(gets) and all(c.args and unparse(c.args[0]).endswith(".lower()") for c in gets) if gets else None, "C10.R8", hr, "response header lookup key is lower-cased",
+               "recorded response header names are lower-cased; a lookup with the expression's own spelling (`Location`) finds nothing: the link value is UNRESOLVABLE and silently replaced by a generated one", hr.loc())
+    got = {t.id for a in walk_body(hr.node) if isinstance(a, ast.Assign) and isinstance(a.value, ast.Call) and last_attr(a.value) == "get" for t in a.targets if isinstance(t, ast.Name)}
+    firsts = [n for n in walk_body(hr.node) if isinstance(n, ast.Subscript) and isinstance(n.value, ast.Name) and n.value.id in got and unparse(n.slice) == "0"]
+    chk.decide(bool(firsts), "C10.R8", hr, "a header value is the first element of the recorded list", "the list of values (or something else) is passed instead of the header's value", hr.loc())
+    for name in ("BodyRequest", "BodyResponse"):
+        f = P.func(f"{EXPR}/nodes.py:{name}.evaluate")
+        rp = [c for c in body_calls(f) if last_attr(c) == "resolve_pointer"]
+        import re as _re
+        forms = [set(canon(f, c.args[1])) if len(c.args) == 2 else set() for c in rp]
+        ok_ = bool(rp) and all("self.pointer[1:]" in fs for fs in forms)
+        bad_ = bool(rp) and any(fs and all(_re.fullmatch(r"self\.pointer(\[\d*:\d*\])?", x) for x in fs) and "self.pointer[1:]" not in fs for fs in forms)
+        chk.decide(True if ok_ else (False if bad_ else None), "C10.R8", f, f"{name}: pointer resolved without its leading `#`",
+                   "the pointer is passed with another offset: `#/id` is resolved as `#/id` (never found) or `id` (first token lost)", f.loc())
+
+
 def rules(tier: str) -> list:  # type: ignore[type-arg]
-    return [r1_exhaustive, r2_resolvability, r3_errors, r4_status_matching, r5_evaluate, rfwd_forwarding, r6_pointer_index, r7_responses_values_total]
+    return [r1_exhaustive, r2_resolvability, r3_errors, r4_status_matching, r5_evaluate, rfwd_forwarding, r6_pointer_index, r7_responses_values_total, r8_node_tables]
